@@ -462,10 +462,11 @@ def run(ctx):
             tlcpar.export("Split", "Split_%s_export.cfg" % tag, 1000),
             tlcpar.export("Split", "Split_audit%s_export.cfg" % th, 1000),
             tlcpar.export("SplitCT", "SplitCT%s_export.cfg" % th, 100)]
+    if ctx.thorough:
+        # 4 branches over the 7-kind alphabet, exhaustive
+        jobs.append(tlcpar.mc("Split", "Split_deep.cfg", (), workers=max(2, w // 2), coverage=False))
     res = tlcpar.run_jobs(ctx, jobs)
     recs, recs2 = res[3] + res[4], res[5]
-    if ctx.thorough:
-        ctx.mc("Split", "Split_deep.cfg")   # 4 branches over the 7-kind alphabet, exhaustive
     seen_modes = collections.Counter()
     for i, rec in enumerate(recs):
         seen_modes[rec["mode"]] += 1
